@@ -52,6 +52,8 @@ def is_refund(m, prop):
 
 def run(ctx):
     ctx.rule_texts.update(RULES)
+    from ..idioms import check_overflow_profile
+    check_overflow_profile(ctx)
     ctx.assumptions += ["A-ATOMIC: a failed call (including a failed plain sub-message) leaves no state", "A-PRIMS", "A-OVF"]
     ctx.not_decided += ["behaviour of the VM on failed sub-messages", "semantics of Expiration ordering (partial_cmp)"]
     it = items(ctx)
